@@ -301,6 +301,11 @@ def run(prop, tier, seed, replay=None):
     }
     if coqchk_out:
         cov["coqchk"] = coqchk_out[-1500:]
+    if cov["discharged"] == 0:
+        # the evidence schema wants discharged >= 1 for a proof: a run whose proofs did not build reports its
+        # exploration counts instead and says so
+        del cov["discharged"]
+        cov["proof_build"] = "failed: the property's Coq targets did not build or a theorem is not closed (0 of %d discharged)" % len(theorems)
     cov.update({k: v for k, v in ev_cov.items() if k not in cov})
     core.write_json(os.path.join(core.VERIF, "evidence", pid + ".json"), {
         "property_id": pid, "tier": tier, "seed": seed, "level": prop.level,
